@@ -385,6 +385,10 @@ def _body(ck: Checker, prog: Program, q: str):
         if len(stores["out"]) == 1 and idx_value(stores["out"][0].targets[0].slice, stores["out"][0]) == sp.expand(K_ + k_):
             placement = "block"
             ck.ok(P + "R1", q, norm_key(stores["out"][0], 90), detail="row K + k")
+        elif len(stores["out"]) == 1 and idx_value(stores["out"][0].targets[0].slice, stores["out"][0]) == O_ and not stores["order"]:
+            # the record's curve is written straight to the record's original position: nothing to put back in order
+            placement = "scatter"
+            ck.ok(P + "R1", q, norm_key(stores["out"][0], 90), detail="row = original index of the record")
         else:
             got = [str(idx_value(st.targets[0].slice, st)) for st in stores["out"]]
             ck.violation(P + "R1", q, "result row", f"the k-th record of a group writes result row(s) {got}; expected K + k", loc=f.loc(b.record_loop))
